@@ -1410,7 +1410,12 @@ class Interp:
             self.log("raise", st, exc=exc, chain=chain, value=value, exc_class=exc_class)
             return ("raise", exc)
         if isinstance(st, ast.Assert):
+            mark_ = len(self.events)
             c = self.truth(self.eval(st.test, env, mi), st)
+            eff_ = [e for e in self.events[mark_:] if e.kind in ("setattr", "inplace", "setitem", "delete")]
+            if eff_:
+                # the condition of an assert has an effect: under `python -O` the statement -- and the effect -- vanish
+                self.log("assert-side-effect", st, effects=[(e.kind, e.data.get("attr") or e.data.get("op")) for e in eff_])
             if c is False:
                 self.log("raise", st, exc="AssertionError")
                 return ("raise", "AssertionError")
@@ -1942,6 +1947,24 @@ class Interp:
                 self.call_function(m_set, [idx, v], {}, st)
                 return
             if isinstance(obj, dict) and _hashable(idx):
+                ids_ = [k_ for k_ in (idx if isinstance(idx, tuple) else (idx,)) if type(k_).__name__ == "IdInt"]
+                if ids_ and any(obj is g_ for m_ in self._mods.values() for g_ in m_._cache.values() if isinstance(g_, dict)):
+                    # a module-level table keyed by id(x): unless x itself is kept alive by the entry, the key can be
+                    # taken over by another object once x is collected
+                    def holds(val: Any, target: Any, depth: int = 0) -> bool:
+                        if val is target:
+                            return True
+                        if depth > 3:
+                            return False
+                        if isinstance(val, (tuple, list)):
+                            return any(holds(x_, target, depth + 1) for x_ in val)
+                        if isinstance(val, dict):
+                            return any(holds(x_, target, depth + 1) for x_ in val.values())
+                        return False
+
+                    for k_ in ids_:
+                        if not holds(v, k_.of):
+                            self.log("identity-keyed-cache", st, key=idx, table=obj)
                 obj[idx] = v
                 return
             if isinstance(obj, list) and isinstance(idx, int):
@@ -2473,6 +2496,25 @@ class Interp:
         return scalar_compare(name, a, b)
 
     def e_Attribute(self, n: ast.Attribute, env: Env, mi: ModInfo) -> Any:
+        if isinstance(n.value, ast.Call) and isinstance(n.value.func, ast.Name) and n.value.func.id == "super" and not n.value.args:
+            # super().<attribute> (not a call): a property / class attribute of the next class in the MRO
+            ok, selfv = env.lookup("self")
+            ok2, clsv = env.lookup("__class__")
+            cls = clsv if ok2 else (selfv.cls if isinstance(selfv, Obj) else None)
+            if ok and isinstance(cls, ClassV):
+                inst_cls = selfv.cls if isinstance(getattr(selfv, "cls", None), ClassV) else cls
+                mro = self.mro(inst_cls)
+                idx = next((i for i, k_ in enumerate(mro) if isinstance(k_, ClassV) and k_.node is cls.node), None)
+                for b in (mro[idx + 1 :] if idx is not None else self.mro(cls)[1:]):
+                    if isinstance(b, ClassV):
+                        r = self.class_own_attr(b, n.attr)
+                        if isinstance(r, FuncV):
+                            if r.kind in ("property", "cached_property"):
+                                return self.call_function(r, [selfv], {}, n)
+                            return Bound(r, selfv) if r.kind not in ("staticmethod",) else r
+                        r2 = self.class_attr(b, n.attr) if self.class_own_attr(b, n.attr) is None and any(isinstance(st, (ast.Assign, ast.AnnAssign)) and any(isinstance(t, ast.Name) and t.id == n.attr for t in (st.targets if isinstance(st, ast.Assign) else [st.target])) for st in b.node.body) else None
+                        if r2 is not None:
+                            return r2
         v = self.eval(n.value, env, mi)
         return self.lift(lambda x: self.getattr(x, n.attr, n), v)
 
